@@ -139,7 +139,12 @@ func setupRuntime(tsan bool) {
 	setEngineQuiet(tsan)
 	if !tsan {
 		runtime.GOMAXPROCS(1)
+		// No automatic collection (sync.Pool is emptied by a collection, and pool
+		// contents are part of the simulated state; explicit flushes are events) -
+		// except when a heavy run piles up more than 1 GiB of garbage: then the
+		// runtime collects rather than letting the worker run into the memory guard.
 		debug.SetGCPercent(-1)
+		debug.SetMemoryLimit(1 << 30)
 	} else {
 		runtime.GOMAXPROCS(8)
 	}
